@@ -1,7 +1,9 @@
 """C14 - Parser.String() is valid, complete EBNF that survives a round trip.  Ebnf.tla defines the abstract EBNF of a
 grammar (EbnfOf) and equality up to redundant parentheses (Norm); grammars are compiled as NAMED Go types (codegen), the real
 String() output is parsed with the ebnf package and handed to TLC (MC_Ebnf), which decides every clause: parseable, root
-first, every production defined exactly once, all references defined, structure = EbnfOf(g), print-parse-print stable."""
+first, every production defined exactly once, all references defined, structure = EbnfOf(g), print-parse-print stable.
+MC_EbnfTrees enumerates every small syntax tree of the EBNF grammar with the text Ebnf!PrintExpr gives it; the harness builds
+each from real ebnf values: String() must parse back to the same tree and print the same text again (B1)."""
 import json, os, random, subprocess
 import vlib, gen_grammar as GG, codegen
 from vlib import Infra, Verdict, log
@@ -95,6 +97,34 @@ def run(pid, tier, args):
                                 {"property": pid, "kind": "ebnf", "grammar": [[p_["name"], [[f["name"], f["kind"], f["tag"]] for f in p_["fields"]]] for p_ in g["prods"]], "unions": g["unions"], "verdict": vd, "text": cases[g["id"]]["real"].get("text", "")})
                 else:
                     v.violations.append(("(suppressed duplicate) %s %s" % (g["id"], key), {"property": pid, "kind": "ebnf", "id": g["id"], "verdict": vd}))
+        # every small syntax tree of the EBNF grammar (not only printed grammars): printed by the specification's printer,
+        # rebuilt as real ebnf values, printed, parsed and printed again by the package
+        if not args.replay:
+            tres = vlib.run_tlc(wd, "MC_EbnfTrees", modules=["Ebnf"], consts={"Deep": "FALSE" if quick else "TRUE"}, timeout=3000, workers=8)
+            if not tres.ok:
+                raise Infra("MC_EbnfTrees: %s" % (tres.violation or tres.error))
+            v.add_tlc(tres)
+            trees = [l[5:] for l in tres.lines if l.startswith("TREE|")]
+            if len(trees) < 1000:
+                raise Infra("too few EBNF trees printed (%d)" % len(trees))
+            tf = os.path.join(wd, "trees.ndjson")
+            open(tf, "w").write("\n".join(trees) + "\n")
+            out = vlib.vh(vhbin, ["ebnf-trees", tf], timeout=1200)
+            fin = None
+            for line in out.splitlines():
+                q = line.split("\t")
+                if q[0] == "BAD":
+                    c = json.loads(trees[int(q[2]) - 1])
+                    v.violation("EBNF syntax tree printing as %r: %s" % (c["text"], q[1][:300]), {"property": pid, "kind": "ebnf-tree", "tree": c["tree"], "text": c["text"], "real": q[1]})
+                elif q[0] == "DRIFT":
+                    log("MODEL-DRIFT: ebnf String() differs from the specification's printer (the tree still survives the round trip): " + q[1][:300])
+                    v.notes["model_drift_ebnf_printer"] = True
+                elif q[0] == "DONE":
+                    fin = q
+            if fin is None:
+                raise Infra("ebnf-trees did not finish")
+            v.validated(int(fin[1]))
+            v.notes["ebnf_trees"] = "%s syntax trees of the EBNF grammar (every term kind, ~, (?= ) (?! ), every modifier, two levels of groups, in sequences and alternatives): String() parses back to the same tree and prints the same text again; %s differ in text from the specification's printer" % (fin[1], fin[3])
         v.validated(len(gs) - nbuild)
         if nbuild > len(gs) // 3:
             raise Infra("too many generated grammars fail to build (%d)" % nbuild)
